@@ -20,7 +20,13 @@ pub struct C05;
 pub fn unit_models(rng: &mut ChaCha8Rng, count: usize, moderate: bool) -> Vec<(LmSpec, &'static str)> {
     let mut v = vec![];
     while v.len() < count {
-        if rng.gen_range(0..4) == 0 {
+        if rng.gen_range(0..80) == 0 {
+            // the classic cycling examples, plain and behind a strictly improving first pivot: the verdict counts here,
+            // the pivots are C14's concern
+            let classics = crate::props::c14::classic_models();
+            let (lm, _) = &classics[rng.gen_range(0..classics.len())];
+            v.push((LmSpec::from_rooc(lm), "cycling-classic"));
+        } else if rng.gen_range(0..4) == 0 {
             let stratum = STRATA[rng.gen_range(0..STRATA.len())];
             let m = gen_model(rng, stratum);
             if let Compiled::Ok(lm) = compile_m(&m) {
